@@ -299,10 +299,14 @@ fn distributor(cfg: &Cfg, rep: &mut Report, h: u64, variant: u32) {
     let token = e.register(TokBase, ());
     let funder = w.account();
     invoke::<()>(e, &token, "mint", args!(e, funder, 1_000_000i128)).unwrap();
+    // a third of the airdrop histories are under-funded: a valid proof whose payout fails marks nothing
+    let mut pot: i128 = if variant == 3 && rng.chance(1, 3) { 30 + rng.below(60) as i128 } else { 100_000 };
+    // the tree in force before the last root change
+    let mut old_tree: Option<(Vec<Vec<H32>>, Vec<(u32, usize, i128)>)> = None;
     let c: Address = if variant == 3 {
         // the constructor pulls the funding from `funder` (a nested, non-root authorization)
         e.mock_all_auths_allowing_non_root_auth();
-        e.register(AirdropContract, (BytesN::from_array(e, &root), token.clone(), 100_000i128, funder.clone()))
+        e.register(AirdropContract, (BytesN::from_array(e, &root), token.clone(), pot, funder.clone()))
     } else {
         let c = e.register(DistC, (variant,));
         invoke::<()>(e, &c, "set_root", args!(e, BytesN::from_array(e, &root))).unwrap();
@@ -329,12 +333,35 @@ fn distributor(cfg: &Cfg, rep: &mut Report, h: u64, variant: u32) {
             // root change: a new tree whose indices partly overlap the old ones
             let n2 = 2 + rng.idx(14);
             let t = mk_tree(&mut rng, n2, 0);
+            old_tree = Some((proofs.clone(), recs.clone()));
             root = t.0;
             proofs = t.1;
             recs = t.2;
             invoke::<()>(e, &c, "set_root", args!(e, BytesN::from_array(e, &root))).unwrap();
             rep.op(format!("#{step} set_root(new tree of {n2} leaves)"));
             continue;
+        }
+        // a claim that was valid against the previous root must not be honoured any more
+        if let (Some((oproofs, orecs)), true) = (&old_tree, k >= 94) {
+            let oi = rng.idx(orecs.len());
+            let (oidx, ousr, oamt) = orecs[oi];
+            let still_valid = recs.iter().enumerate().any(|(j, r)| *r == orecs[oi] && proofs[j] == oproofs[oi]);
+            if !still_valid {
+                let before: Vec<bool> = (0..20u32).map(|x| invoke::<bool>(e, &c, "is_claimed", args!(e, x)).must("is_claimed")).collect();
+                e.mock_all_auths();
+                let got: Result<(), Fail> = invoke(e, &c, "claim", args!(e, oidx, users[ousr], oamt, to_vec(e, &oproofs[oi])));
+                rep.evaluations += 1;
+                rep.op(format!("#{step} claim(index {oidx}, user {ousr}, amount {oamt}) with the proof from the PREVIOUS tree -> {}", tag(&got)));
+                rep.case(format!("{vname}/proof-from-previous-root/claimed-before={}/{}", claimed.contains(&oidx), tag(&got)));
+                rep.check("claim", got.is_err(), &format!("C17/claim/{vname}/claimed-with-invalid-proof/proof-from-previous-root"), || format!("a claim for index {oidx} proved against the previous root was honoured after set_root"));
+                let after: Vec<bool> = (0..20u32).map(|x| invoke::<bool>(e, &c, "is_claimed", args!(e, x)).must("is_claimed")).collect();
+                if got.is_err() {
+                    rep.check("res", before == after, &format!("C17/res/{vname}/failed-claim-marked-something"), || format!("failed claim changed the claimed flags: {before:?} -> {after:?}"));
+                } else {
+                    claimed.insert(oidx);
+                }
+                continue;
+            }
         }
         let i = rng.idx(recs.len());
         let (idx, usr, amt) = recs[i];
@@ -364,7 +391,11 @@ fn distributor(cfg: &Cfg, rep: &mut Report, h: u64, variant: u32) {
         e.mock_all_auths();
         let got: Result<(), Fail> = invoke(e, &c, "claim", args!(e, pidx, users[pusr], pamt, to_vec(e, &proof)));
         rep.evaluations += 1;
-        let want = genuine && !claimed.contains(&pidx);
+        let payable = variant != 3 || pamt <= pot;
+        let want = genuine && !claimed.contains(&pidx) && payable;
+        if genuine && !claimed.contains(&pidx) && !payable {
+            rep.count("valid_proof_with_failing_payout");
+        }
         rep.op(format!("#{step} claim(index {pidx}, user {pusr}, amount {pamt}) kind={kind} already_claimed={} -> {}", claimed.contains(&pidx), tag(&got)));
         rep.case(format!("{vname}/{kind}/claimed-before={}/{}", claimed.contains(&pidx), tag(&got)));
         rep.count(&format!("claim:{}", tag(&got)));
@@ -376,6 +407,9 @@ fn distributor(cfg: &Cfg, rep: &mut Report, h: u64, variant: u32) {
         if got.is_ok() {
             claimed.insert(pidx);
             paid[pusr] += pamt;
+            if variant == 3 {
+                pot -= pamt;
+            }
         }
         let after: Vec<bool> = (0..20u32).map(|x| invoke::<bool>(e, &c, "is_claimed", args!(e, x)).must("is_claimed")).collect();
         for x in 0..20u32 {
@@ -395,7 +429,7 @@ fn distributor(cfg: &Cfg, rep: &mut Report, h: u64, variant: u32) {
 }
 
 pub fn run(cfg: &Cfg, rep: &mut Report) {
-    rep.rule = "(a) for both hashers and both forms (sorted-pair, positional with index), every tree size 1..=65 (thorough 400) with fresh random leaves (split over shards): every leaf (beyond 40 leaves: first, last and a sample) with its honest proof from an independent tree builder, and every single corruption: one bit in each proof element, adjacent swap, first/last dropped, last duplicated, element appended, other leaf, random leaf, leaf bit, random root, root bit, every other index < 2^len (sampled beyond 64), index = 2^len and u32::MAX; (b) distributor histories on a wrapper (Keccak sorted, Keccak indexed, Sha256 indexed) and the airdrop example: valid claims (a sixth of the leaves allocate 0), repeats, proofs of other indices, wrong / zero / negative amount, wrong receiver / index, empty proof, root changes, ledger jumps. Sorted-pair trees are also built with two equal adjacent leaves and with odd nodes paired with themselves (a sibling equal to the running node). Distinct case = (hasher, form, tree-size class, leaf position, corruption kind, outcome).".into();
+    rep.rule = "(a) for both hashers and both forms (sorted-pair, positional with index), every tree size 1..=65 (thorough 400) with fresh random leaves (split over shards): every leaf (beyond 40 leaves: first, last and a sample) with its honest proof from an independent tree builder, and every single corruption: one bit in each proof element, adjacent swap, first/last dropped, last duplicated, element appended, other leaf, random leaf, leaf bit, random root, root bit, every other index < 2^len (sampled beyond 64), index = 2^len and u32::MAX; (b) distributor histories on a wrapper (Keccak sorted, Keccak indexed, Sha256 indexed) and the airdrop example: valid claims (a sixth of the leaves allocate 0), repeats, proofs of other indices, wrong / zero / negative amount, wrong receiver / index, empty proof, root changes (claims proved against the previous root are retried), ledger jumps, under-funded airdrops (a valid proof whose payout fails). Sorted-pair trees are also built with two equal adjacent leaves and with odd nodes paired with themselves (a sibling equal to the running node). Distinct case = (hasher, form, tree-size class, leaf position, corruption kind, outcome).".into();
     verifier_sweep(cfg, rep);
     let nh = cfg.pick(30u64, 1500);
     for v in 0..4u32 {
